@@ -2485,7 +2485,9 @@ def main(
     if constants_inputs:
         for key, value in constants_inputs.items():
             if "_head_start" in key:
-                df_animal_stock_info.loc[country_code, key.strip("_start")] = value
+                # drop the "_start" suffix (str.strip would also eat leading letters of e.g. "rabbit", "turkey", "asses")
+                column_name = key[: -len("_start")] if key.endswith("_start") else key
+                df_animal_stock_info.loc[country_code, column_name] = value
 
     # read animal nutrition data
     df_animal_attributes = AnimalDataReader.read_animal_nutrition_data(attributes_csv)
